@@ -55,3 +55,21 @@ def chunks(lo, hi, n):
         if a <= b:
             out.append((a, b))
     return out
+
+
+def round_to_increment(x, inc, mode):
+    """RoundNumberToIncrement on exact integers; inc a positive constant; mode = RoundingMode discriminant
+    (0 ceil, 1 floor, 2 expand, 3 trunc, 4 halfCeil, 5 halfFloor, 6 halfExpand, 7 halfTrunc, 8 halfEven)"""
+    q = ediv(x, inc)
+    r = emod(x, inc)
+    lo = mul(q, inc)
+    hi = add(lo, inc)
+    pos = gt(x, 0)
+    away = ite(pos, hi, lo)
+    toward = ite(pos, lo, hi)
+    twice = mul(2, r)
+    even = ite(eq(emod(q, 2), 0), lo, hi)
+    tie = ite(eq(mode, 4), hi, ite(eq(mode, 5), lo, ite(eq(mode, 6), away, ite(eq(mode, 7), toward, even))))
+    half = ite(lt(twice, inc), lo, ite(gt(twice, inc), hi, tie))
+    directed = ite(eq(mode, 0), hi, ite(eq(mode, 1), lo, ite(eq(mode, 2), away, toward)))
+    return ite(eq(r, 0), x, ite(le(mode, 3), directed, half))
